@@ -24,8 +24,10 @@ enum Term {
 
 #[derive(Clone, Debug)]
 enum Def {
-    /// `K{i} : i64 : 5;`
-    ConstLit(i64),
+    /// `K{i} : i64 : 5;` / `K{i} : T{j} : 5;` (annotated with an alias that may be defined later / elsewhere)
+    ConstLit(i64, Option<usize>),
+    /// `A{i} :: K{j};` — a plain global that is another constant
+    AliasConst(usize),
     /// `U{i} :: 7;`
     Untyped(i64),
     /// `K{i} : i64 : comptime { t1 + t2 … };` (`typed`) or `U{i} :: comptime { … };`
@@ -52,7 +54,8 @@ pub struct Graph {
 
 fn name(defs: &[Def], i: usize) -> String {
     match &defs[i] {
-        Def::ConstLit(_) => format!("K{i}"),
+        Def::ConstLit(..) => format!("K{i}"),
+        Def::AliasConst(_) => format!("A{i}"),
         Def::Untyped(_) => format!("U{i}"),
         Def::Comptime { typed, .. } => format!("{}{i}", if *typed { "K" } else { "U" }),
         Def::Alias(_) => format!("T{i}"),
@@ -72,10 +75,10 @@ impl Graph {
 
     pub fn gen(rng: &mut Rng, rep: &mut Report) -> Graph {
         let n = 3 + rng.below(10) as usize;
-        let mut g = Graph { defs: vec![Def::ConstLit(1 + rng.below(9) as i64)] };
+        let mut g = Graph { defs: vec![Def::ConstLit(1 + rng.below(9) as i64, None)] };
         while g.defs.len() < n {
             let i = g.defs.len();
-            let consts = g.of_kind(i, &|d| matches!(d, Def::ConstLit(_) | Def::Untyped(_) | Def::Comptime { .. }));
+            let consts = g.of_kind(i, &|d| matches!(d, Def::ConstLit(..) | Def::Untyped(_) | Def::Comptime { .. } | Def::AliasConst(_)));
             let aliases = g.of_kind(i, &|d| matches!(d, Def::Alias(_)));
             let structs = g.of_kind(i, &|d| matches!(d, Def::Struct(_)));
             let fns = g.of_kind(i, &|d| matches!(d, Def::Fn { .. }));
@@ -83,15 +86,15 @@ impl Graph {
             let lens = g.of_kind(i, &|d| matches!(d, Def::Len(_)));
             let opt = |rng: &mut Rng, v: &Vec<usize>| if v.is_empty() || rng.chance(1, 4) { None } else { Some(*rng.pick(v)) };
             let d = match rng.below(100) {
-                0..=7 => Def::ConstLit(1 + rng.below(9) as i64),
-                8..=14 => Def::Untyped(1 + rng.below(9) as i64),
+                0..=11 => Def::ConstLit(1 + rng.below(9) as i64, opt(rng, &aliases)),
+                12..=14 => Def::Untyped(1 + rng.below(9) as i64),
                 15..=39 => {
                     let typed = rng.chance(2, 3);
                     // KNOWN FINDING (corpus entry `untyped-const-arithmetic-in-typed-comptime`): arithmetic
                     // on an untyped (i32) global constant inside a comptime block annotated i64 fails
                     // Cranelift verification as soon as another comptime block reads the result; typed
                     // blocks therefore draw their constants from the typed ones only
-                    let typed_consts = g.of_kind(i, &|d| matches!(d, Def::ConstLit(_) | Def::Comptime { .. }));
+                    let typed_consts = g.of_kind(i, &|d| matches!(d, Def::ConstLit(..) | Def::Comptime { .. }));
                     let consts = if typed { typed_consts } else { consts.clone() };
                     let nt = 1 + rng.below(3);
                     let mut terms = vec![];
@@ -107,7 +110,17 @@ impl Graph {
                     }
                     Def::Comptime { typed, terms }
                 }
-                40..=52 => Def::Alias(opt(rng, &aliases)),
+                40..=46 => Def::Alias(opt(rng, &aliases)),
+                47..=52 => {
+                    let typed_only = g.of_kind(i, &|d| matches!(d, Def::ConstLit(..) | Def::Comptime { .. } | Def::AliasConst(_)));
+                    // prefer constants whose annotation is itself a user-defined name
+                    let annotated = g.of_kind(i, &|d| matches!(d, Def::ConstLit(_, Some(_))));
+                    if !annotated.is_empty() && rng.chance(2, 3) {
+                        Def::AliasConst(*rng.pick(&annotated))
+                    } else {
+                        Def::AliasConst(*rng.pick(&typed_only))
+                    }
+                }
                 53..=60 => Def::Struct(opt(rng, &aliases)),
                 61..=78 => Def::Fn { param: opt(rng, &aliases), k: opt(rng, &consts), callee: opt(rng, &fns) },
                 79..=84 if generics.len() < 2 => Def::Generic,
@@ -120,7 +133,9 @@ impl Graph {
         }
         for d in &g.defs {
             rep.hit(match d {
-                Def::ConstLit(_) => "globals:typed-const",
+                Def::ConstLit(_, None) => "globals:typed-const",
+                Def::ConstLit(_, Some(_)) => "globals:const-annotated-with-alias",
+                Def::AliasConst(_) => "globals:const-that-is-another-const",
                 Def::Untyped(_) => "globals:untyped-const",
                 Def::Comptime { .. } => "globals:comptime-const",
                 Def::Alias(None) => "globals:alias-of-primitive",
@@ -139,7 +154,8 @@ impl Graph {
     // ---- the oracle: evaluate the graph ----
     fn const_val(&self, i: usize) -> i64 {
         match &self.defs[i] {
-            Def::ConstLit(n) | Def::Untyped(n) => *n,
+            Def::ConstLit(n, _) | Def::Untyped(n) => *n,
+            Def::AliasConst(j) => self.const_val(*j),
             Def::Comptime { terms, .. } => terms.iter().map(|t| self.term_val(t)).sum(),
             _ => unreachable!(),
         }
@@ -163,7 +179,7 @@ impl Graph {
         let mut out = vec![];
         for (i, d) in self.defs.iter().enumerate() {
             match d {
-                Def::ConstLit(_) | Def::Untyped(_) | Def::Comptime { .. } => out.push(self.const_val(i).to_string()),
+                Def::ConstLit(..) | Def::Untyped(_) | Def::Comptime { .. } | Def::AliasConst(_) => out.push(self.const_val(i).to_string()),
                 Def::Fn { .. } => out.push(self.fn_val(i, 1).to_string()),
                 Def::Generic => out.push("10".to_string()),
                 Def::Mk { k, .. } => out.push((4 + self.const_val(*k)).to_string()),
@@ -216,7 +232,7 @@ impl Graph {
         let mut main = String::from("main :: () {\n");
         for (i, d) in self.defs.iter().enumerate() {
             match d {
-                Def::ConstLit(_) | Def::Untyped(_) | Def::Comptime { .. } => main.push_str(&format!("    core.println({});\n", r(i, 0))),
+                Def::ConstLit(..) | Def::Untyped(_) | Def::Comptime { .. } | Def::AliasConst(_) => main.push_str(&format!("    core.println({});\n", r(i, 0))),
                 Def::Fn { .. } => main.push_str(&format!("    core.println({}(1));\n", r(i, 0))),
                 Def::Generic => main.push_str(&format!("    core.println({}(i64, 5));\n", r(i, 0))),
                 Def::Mk { .. } => main.push_str(&format!("    {{ s := {}(4); core.println(s.a + s.b); }}\n", r(i, 0))),
@@ -234,7 +250,8 @@ impl Graph {
             let f = file_of[i];
             let n = name(&self.defs, i);
             let line = match &self.defs[i] {
-                Def::ConstLit(v) => format!("{n} : i64 : {v};"),
+                Def::ConstLit(v, a) => format!("{n} : {} : {v};", ty(a, f)),
+                Def::AliasConst(j) => format!("{n} :: {};", r(*j, f)),
                 Def::Untyped(v) => format!("{n} :: {v};"),
                 Def::Comptime { typed, terms } => {
                     let body = terms.iter().map(|t| term(t, f)).collect::<Vec<_>>().join(" + ");
@@ -288,7 +305,13 @@ fn corpus() -> Vec<(Graph, Vec<usize>, Vec<usize>, usize, Option<&'static str>)>
     };
     // a typed constant wider than its comptime block (`U0 :: 5; K1 : i64 : comptime { U0 + 4 }`)
     let w = Graph { defs: vec![Def::Untyped(5), Def::Comptime { typed: true, terms: vec![Term::K(0), Term::Lit(4)] }] };
+    // a constant annotated with an alias defined AFTER it (and after a constant that is that
+    // constant): `K1 : T0 : 40; A2 :: K1; T0 :: i64;` — one file, and with T0 in an imported file
+    let o1 = Graph { defs: vec![Def::Alias(None), Def::ConstLit(40, Some(0)), Def::AliasConst(1)] };
+    let o2 = Graph { defs: vec![Def::Alias(None), Def::ConstLit(40, Some(0)), Def::AliasConst(1)] };
     vec![
+        (o1, vec![1, 2, 0, usize::MAX], vec![0, 0, 0], 1, None),
+        (o2, vec![1, 2, usize::MAX, 0], vec![1, 0, 0], 2, None),
         (g, vec![1, usize::MAX, 0, 2, 3], vec![1, 0, 1, 0], 2, None),
         (h, vec![0, 1, 2, usize::MAX], vec![0, 0, 0], 1, Some("untyped-const-arithmetic-in-typed-comptime")),
         (w, vec![usize::MAX, 1, 0], vec![0, 0], 1, None),
@@ -296,7 +319,7 @@ fn corpus() -> Vec<(Graph, Vec<usize>, Vec<usize>, usize, Option<&'static str>)>
 }
 
 pub fn run(rep: &mut Report, rng: &mut Rng, tier: &str, widen: bool) {
-    let n = if widen { 300 } else if tier == "thorough" { 150 } else { 16 };
+    let n = if widen { 400 } else if tier == "thorough" { 200 } else { 40 };
     let mut all: Vec<E2eProgram> = vec![];
     let mut meta: Vec<(usize, String)> = vec![];
     let mut graphs: Vec<Graph> = vec![];
